@@ -729,6 +729,10 @@ impl ZmtpEngine {
       };
 
       self.last_activity_time = Instant::now();
+      // Any frame from the peer proves it is alive: a pending PONG deadline must not
+      // close a connection on which traffic keeps flowing (libzmq cancels its
+      // heartbeat timeout on every received frame as well).
+      self.waiting_for_pong = false;
 
       if msg.is_command() {
         // ZMTP/2.0 has no COMMAND frames; receiving one is a protocol violation.
